@@ -180,6 +180,15 @@ func (r *rewriter) post(c *astutil.Cursor) bool {
 			}
 		}
 
+	case *ast.ForStmt:
+		if n.Body != nil {
+			// a loop can spin without ever reaching a scheduling point: count its
+			// iterations so a livelock becomes a verdict instead of a hang
+			r.stats["looptick"]++
+			tick := &ast.ExprStmt{X: r.vrtCall("LoopTick")}
+			n.Body.List = append([]ast.Stmt{tick}, n.Body.List...)
+		}
+
 	case *ast.GoStmt:
 		r.stats["go"]++
 		c.Replace(r.rewriteGo(n))
